@@ -1373,6 +1373,15 @@ class ForAll(BinaryOperator):
     def condition(self, value):
         self.right = value
 
+    @lru_cache(maxsize=None)
+    def _required_variables_from_child_(self, child: Optional[SymbolicExpression] = None, when_true: bool = True):
+        # The condition is evaluated once per value of the universal variable: results of the condition that differ
+        # only in that value are not duplicates of each other.
+        required_vars = HashedIterable()
+        required_vars.update(super()._required_variables_from_child_(child, when_true))
+        required_vars.update(self.variable._unique_variables_)
+        return required_vars
+
     @property
     @lru_cache(maxsize=None)
     def condition_unique_variable_ids(self) -> List[int]:
